@@ -2087,7 +2087,100 @@ def pptx_fragment(repo, reg, uni, pre):
     return {"obligations": obls, "functions": [dict(mod.fn_info(fname), obligations=len(obls))]}
 
 
-EXTRA = [bounded_native, fragment_obligations]
+# =====================================================================================
+# Empty-element tags (`<x/>`) of the two HTMLParser subclasses (html tree builder, epub chapter walker).
+#
+# Statement: an empty element has no content, so it cannot change what happens to the text that FOLLOWS it: after
+# handle_startendtag the removed-markup state is what it was (skip depth unchanged: `<script src=".."/>` must not swallow the
+# rest of the document) and no data context has been opened by it (epub: title / table-cell flags are not switched on).
+# The function under contract is the one that RUNS: the class's own override when it has one, else the definition it
+# inherits from html.parser.HTMLParser (read from the interpreter's own source); the start / end handlers it calls are
+# executed in place (their bodies, not their contracts).
+# =====================================================================================
+EMPTY_ELEMENT_IDS = ["ensures#empty-element-leaves-the-removed-markup-state-as-it-was", "ensures#empty-element-opens-no-data-context"]
+
+
+def empty_element_obligations(repo, tier):
+    import ast
+    import copy
+    import inspect
+    import textwrap
+    from html.parser import HTMLParser
+    from pyvc import loader, verify
+    from pyvc.contracts import Registry
+    from pyvc.exctypes import Universe
+    C = _C17
+    obls, fns = [], []
+    for rel, cls, flags_of in ((C.EPUB, C.ECLS, lambda: [epub_roles()[k] for k in ("in_title", "in_cell")]), (HTML, C.HCLS, lambda: [])):
+        short = rel.split("/")[-1]
+        pre = f"C02/{short}::{cls}.handle_startendtag/"
+        fq = f"{rel}::{cls}.handle_startendtag"
+        try:
+            reg = Registry()
+            for c in contracts(reg):
+                reg.add(c)
+            mod = loader.module(rel, repo)
+            cnode = next((n for n in ast.walk(mod.tree) if isinstance(n, ast.ClassDef) and n.name == cls), None) if hasattr(mod, "tree") else None
+            fnode = mod.functions.get(f"{cls}.handle_startendtag")
+            if fnode is None:
+                bases = [ast.unparse(b) for b in cnode.bases] if cnode is not None else None
+                if bases is None or any(b.rsplit(".", 1)[-1] != "HTMLParser" for b in bases):
+                    raise X.Unsupported(f"bases of {cls} not recognised ({bases})")
+                fnode = ast.parse(textwrap.dedent(inspect.getsource(HTMLParser.handle_startendtag))).body[0]
+            start = reg.get(f"{rel}::{cls}.handle_starttag")
+            if start is None:
+                raise X.Unsupported("start-tag handler has no contract to take the receiver from")
+            reg2 = copy.copy(reg)
+            reg2.fn = {k: v for k, v in reg.fn.items() if not k.startswith(f"{rel}::{cls}.handle_")}       # handlers run in place
+            try:
+                flags = flags_of()
+            except X.Unsupported:
+                flags = None
+
+            def fld(st, c, f):
+                return st.obj(c.args["self"].ref).data[f]
+
+            def depth_kept(c):
+                a, b = fld(c.entry, c, "skip_depth"), fld(c.st, c, "skip_depth")
+                if not (isinstance(a, VInt) and isinstance(b, VInt)):
+                    raise X.Unsupported("skip depth is not an int")
+                return b.t == a.t
+
+            def no_context(c, flags=flags):
+                if flags is None:
+                    raise X.Unsupported("roles")
+                out = []
+                for f in flags:
+                    a, b = fld(c.entry, c, f), fld(c.st, c, f)
+                    if not (isinstance(a, VBool) and isinstance(b, VBool)):
+                        raise X.Unsupported(f"{f} is not a bool")
+                    out.append(z3.Implies(b.t, a.t))
+                return z3.And(out + [z3.BoolVal(True)])
+            con = FnContract(target=fq, params=[("self", start.params[0][1])] + [(a.arg, m) for a, (_n, m) in zip(fnode.args.args[1:], start.params[1:])],
+                             requires=lambda c: fld(c.st, c, "skip_depth").t >= 0,
+                             ensures=[(EMPTY_ELEMENT_IDS[0].split("#")[1], X.robust(depth_kept)), (EMPTY_ELEMENT_IDS[1].split("#")[1], X.robust(no_context))],
+                             modifies=("self",), raises=[Raises("Exception", sub=True)])
+            if len(fnode.args.args) != 3 or fnode.args.args[0].arg != "self":
+                raise X.Unsupported("signature of handle_startendtag not recognised")
+            con.params[0] = (fnode.args.args[0].arg, con.params[0][1])
+            ex = EXECUTOR(mod, reg2, Universe(repo))
+            ex.contract = con
+            ex.oid_prefix = pre[:-1]
+            got, _cov = verify.generate(ex, con, mod, fnode)
+            mine = [dict(verify.discharge(ob, None, getattr(ex, "witness_terms", {})), function=fq) for ob in got.values()]
+            mine = [o for o in mine if o["id"].split("/")[-1] in EMPTY_ELEMENT_IDS]
+            for o in mine:
+                o["kind"] = "ensures"
+            obls += mine
+            have = {o["id"] for o in mine}
+            obls += _unknown(pre, [l for l in EMPTY_ELEMENT_IDS if pre + l not in have], "no verification condition for this clause", fq)
+            fns.append({"function": fq, "obligations": len(EMPTY_ELEMENT_IDS)})
+        except Exception as e:  # noqa  (unrecognised shape / outside the subset: undecided, the native replayer decides)
+            obls += _unknown(pre, EMPTY_ELEMENT_IDS, f"{type(e).__name__}: {e}", fq)
+    return {"obligations": obls, "functions": [], "undecided": []}
+
+
+EXTRA = [bounded_native, fragment_obligations, empty_element_obligations]
 
 
 def known_findings(kf, violations, repo, tier):
